@@ -228,7 +228,7 @@ fn subset_scenarios(tier: Tier, oracles: Oracles, nmax: usize) -> Vec<Scenario> 
             continue;
         }
         let nabs = subset_absent(b.n, b.keylen).len();
-        let ins_bits = if tier == Tier::Quick && b.n >= 12 { 0 } else { nabs };
+        let ins_bits = if tier == Tier::Quick && b.n >= 12 { 0 } else if b.n >= 14 { 2 } else { nabs };
         for reverse in [false, true] {
             if reverse && tier == Tier::Quick && b.n >= 9 {
                 continue;
@@ -315,7 +315,7 @@ fn c01_like(tier: Tier, oracles: Oracles, with_drop: bool) -> Vec<Scenario> {
     sc.extra_probes = vec![blob(""), blob("a"), blob("K*1100")];
     out.push(sc);
     // subset driver
-    out.extend(subset_scenarios(tier, oracles, if q { 12 } else { 14 }));
+    out.extend(subset_scenarios(tier, oracles, 14));
     if !q {
         out.extend(subset_split_scenarios(oracles, 12));
     } else {
